@@ -24,6 +24,11 @@ TEXT = {
             "every type (induction on ty); every well-formed value's spec encoding length lies in [min_len, max_len] and "
             "equals fsize for fixed types (full nesting). value_byte_length tied by correspondence + model-free oracle.",
             "Coq proof by induction on ty (lia) + correspondence", "5 (C11)"),
+    "C12": ("Theorems: default_node(t) succeeds for every well-formed type and its root is Spec.htr t (zero_val t) "
+            "(induction on ty through fill_to_length / fill_to_contents and the CRep invariant); zero_val is well-formed; "
+            "default root = root of the explicitly constructed zero value. Navigability and default encoding by "
+            "correspondence (every fixed-structure gindex up to depth 3).",
+            "Coq proof by induction on ty + correspondence", "5 (C12)"),
     "C13": ("Theorems (Coq, every width w>=0, every operand): constructor accepts exactly [0,2^w); coercing operators "
             "(+ - * // % & | ^, both operand orders, same-type or plain-int operand) return the exact mathematical result "
             "or ValueError / ZeroDivisionError, never a wrapped or widened value; other-width operands refused; bitwise "
